@@ -153,7 +153,7 @@ func (c *Ctx) operandDesc(st *State, op Term) opDesc {
 		case "RegType":
 			d.rt = c.Def("opd.rt", c.load(st, RefSub(d.reg, i), rs.Field(i).Type()).T)
 		case "ByteSize":
-			d.bs = c.Def("opd.bs", c.load(st, RefSub(d.reg, i), rs.Field(i).Type()).T)
+			d.bs = c.known(c.Def("opd.bs", c.load(st, RefSub(d.reg, i), rs.Field(i).Type()).T))
 		}
 	}
 	return d
